@@ -11,6 +11,7 @@ from fractions import Fraction
 from .values import *
 
 INF = float('inf')
+TAGS = ('view', 'zip', 'gen', 'objdict', 'lambda', 'builtin_method', 'slice', 'range', 'sdview', 'pymodule', 'closure', 'namedtuple')
 
 
 class EndPath(Exception):
@@ -489,10 +490,18 @@ class Interp:
             if r:
                 return Bound(FuncVal(r[0], self.prog.classes[r[1]][1], r[1]), o.self_obj)
             raise Unsupported(f"super().{attr}")
+        if isinstance(o, tuple) and o and isinstance(o[0], str) and o[0] == 'pymodule':
+            if attr in self.prog.funcs.get(o[1], {}):
+                return FuncVal(self.prog.funcs[o[1]][attr], o[1])
+            raise PyRaise('AttributeError', f"module {o[1]} has no attribute {attr}")
         if isinstance(o, (list, dict, SetVal, SymDict, Accum, SymColl, tuple, HavocColl)):
             return ('builtin_method', o, attr)
         if isinstance(o, tuple) and o and o[0] == 'namedtuple':
             return o[1][attr]
+        if isinstance(o, tuple) and o and o[0] == 'pymodule':
+            if attr in self.prog.funcs.get(o[1], {}):
+                return FuncVal(self.prog.funcs[o[1]][attr], o[1])
+            raise PyRaise('AttributeError', f"module {o[1]} has no attribute {attr}")
         raise Unsupported(f"attribute {attr!r} of {type(o).__name__}")
 
     def e_Attribute(self, e, env):
@@ -762,7 +771,7 @@ class Interp:
         return ('view', it, g.target, list(g.ifs), e.elt, env, kind)
 
     def concrete_iter(self, it):
-        if isinstance(it, (list, tuple)) and not (isinstance(it, tuple) and it and isinstance(it[0], str) and it[0] in ('view', 'zip', 'gen', 'objdict', 'lambda', 'builtin_method', 'slice', 'range')):
+        if isinstance(it, (list, tuple)) and not (isinstance(it, tuple) and it and isinstance(it[0], str) and it[0] in TAGS):
             return list(it)
         if isinstance(it, SetVal):
             if len(it.elems) <= 1:
@@ -1068,7 +1077,19 @@ class Interp:
     def s_ImportFrom(self, st, env):
         h = self.hooks.get(('importfrom',))
         if h:
-            h(self, st, env)
+            return h(self, st, env)
+        mod = env.get('$module')
+        if mod:
+            pkg = mod.split('.')
+            base = pkg[:len(pkg) - st.level] if st.level else []
+            src = '.'.join(base + (st.module.split('.') if st.module else []))
+            for a in st.names:
+                sub = src + '.' + a.name
+                try:
+                    self.prog.load(sub)
+                    env[a.asname or a.name] = ('pymodule', sub)
+                except OSError:
+                    pass
 
     def s_Return(self, st, env):
         raise _Ret(self.ev(st.value, env) if st.value else None)
@@ -1096,8 +1117,7 @@ class Interp:
         pass
 
     def s_FunctionDef(self, st, env):
-        env[st.name] = ('closure', st, env)
-        raise Unsupported(f"nested function {st.name}")
+        env[st.name] = ('closure', st, env)      # may be stored; calling it is unsupported
 
     def setattr(self, o, attr, v):
         if ('setattr', type(o).__name__) in self.hooks:
@@ -1121,7 +1141,7 @@ class Interp:
         raise Unsupported(f"attribute store on {type(o).__name__}")
 
     def unpack(self, v, n, node=None):
-        if isinstance(v, (tuple, list)) and not (isinstance(v, tuple) and v and isinstance(v[0], str) and v[0] in ('view', 'zip', 'gen', 'range')):
+        if isinstance(v, (tuple, list)) and not (isinstance(v, tuple) and v and isinstance(v[0], str) and v[0] in TAGS):
             if len(v) != n:
                 raise PyRaise('ValueError', f"unpack: expected {n} values, got {len(v)} (line {getattr(node, 'lineno', '?')})")
             return list(v)
@@ -1212,12 +1232,13 @@ class Interp:
 
     # ---------------------------------------------------------------- loops
     def loop_id(self, st):
-        fv = self.frames[-1] if self.frames else None
-        if fv is None:
-            return ('<top>', st.lineno)
-        loops = [n for n in ast.walk(fv.node) if isinstance(n, (ast.For, ast.While))]
-        loops.sort(key=lambda n: (n.lineno, n.col_offset))
-        return (fv.qual, loops.index(st))
+        # the statement may belong to a frame below the top one (a loop body running as the consumer of a generator)
+        for fv in reversed(self.frames):
+            loops = [n for n in ast.walk(fv.node) if isinstance(n, (ast.For, ast.While))]
+            if any(n is st for n in loops):
+                loops.sort(key=lambda n: (n.lineno, n.col_offset))
+                return (fv.qual, [i for i, n in enumerate(loops) if n is st][0])
+        return ('<top>', st.lineno)
 
     def assigned_names(self, body):
         out = []
